@@ -82,14 +82,22 @@ def impl_builders(table, lay=0):
     return e.tolist(), np.asarray(fe).tolist(), np.asarray(npf).tolist(), int(e.shape[0])
 
 
-def impl_grid(table, lon=None, lat=None, order=0, lay=0):
+def impl_grid(table, lon=None, lat=None, order=0, lay=0, supplied=False):
     import uxarray as ux
     t = layout(np.array(table, dtype=np.intp), lay)
+    kw = {}
+    if supplied:
+        # the source ships its own edge table (arbitrary order / orientation): face_edge must index THAT table
+        rows = [[x for x in r if x != FILL] for r in table]
+        pairs = sorted({(min(a, b), max(a, b)) for c in rows for a, b in zip(c, c[1:] + c[:1])})
+        pairs = [list(p) if i % 2 else [p[1], p[0]] for i, p in enumerate(pairs)]
+        pairs = pairs[len(pairs) // 2:] + pairs[:len(pairs) // 2]
+        kw["edge_node_connectivity"] = np.array(pairs, dtype=np.intp)
     n = int(max(x for r in table for x in r if x != FILL)) + 1
     if lon is None:
         lon = np.linspace(-170, 170, n)
         lat = np.linspace(-80, 80, n)
-    g = ux.Grid.from_topology(np.array(lon, dtype=float), np.array(lat, dtype=float), t, fill_value=FILL)
+    g = ux.Grid.from_topology(np.array(lon, dtype=float), np.array(lat, dtype=float), t, fill_value=FILL, **kw)
     # order of first access is part of the quantifier ("any history"): three orders
     if order == 0:
         e = g.edge_node_connectivity.values
@@ -167,10 +175,14 @@ def run_case_impl(ck, c, idx):
         ck.fail("raises", {"table": t, "level": "builders"}, {"level": "builders"}, detail=repr(ex))
     try:
         ll = c.get("lonlat")
-        e, fe, npf, ne, g = impl_grid(t, ll[0] if ll else None, ll[1] if ll else None, order=idx % 3, lay=(idx // 3) % 3)
+        rp = c.get("replay") or {}
+        sup = (idx % 5 == 2) and all(len(set(x for x in r if x != FILL)) == sum(1 for x in r if x != FILL) for r in t)
+        sup = rp.get("supplied_edges", sup)
+        e, fe, npf, ne, g = impl_grid(t, ll[0] if ll else None, ll[1] if ll else None, order=rp.get("order", idx % 3),
+                                      lay=rp.get("layout", (idx // 3) % 3), supplied=sup)
         bad = spec_check(t, e, fe, npf, ne)
         if bad:
-            ck.fail(bad, {"table": t, "level": "grid", "order": idx % 3, "layout": (idx // 3) % 3}, {"level": "grid"},
+            ck.fail(bad, {"table": t, "level": "grid", "order": idx % 3, "layout": (idx // 3) % 3, "supplied_edges": sup}, {"level": "grid", "supplied_edges": sup},
                     detail=json.dumps({"edges": e, "face_edge": fe, "npf": npf}))
         res["grid"] = canon(e, fe, npf)
         if c.get("closed") and c.get("n_node") is not None:
@@ -178,6 +190,22 @@ def run_case_impl(ck, c, idx):
             if g.n_node - ne + g.n_face != 2 or used != g.n_node:
                 ck.fail("euler", {"table": t, "name": c.get("name")}, {"level": "grid"},
                         detail="n_node=%d n_edge=%d n_face=%d" % (g.n_node, ne, g.n_face))
+        if ll and len(t) >= 2 and (idx % 4 == 1 or rp.get("faces")):
+            # a grid obtained from this one by isel is a grid too: its edge tables must describe ITS face table
+            rng = ck.rng
+            k = rng.randint(1, len(t))
+            sel = rp.get("faces") or rng.sample(range(len(t)), k)
+            sub = g.isel(n_face=sel)
+            st = [[int(x) for x in r] for r in np.asarray(sub.face_node_connectivity.values)]
+            se = [tuple(int(x) for x in r) for r in np.asarray(sub.edge_node_connectivity.values)]
+            sfe = [[int(x) for x in r] for r in np.asarray(sub.face_edge_connectivity.values)]
+            snpf = [int(x) for x in np.asarray(sub.n_nodes_per_face.values)]
+            bad = spec_check(st, se, sfe, snpf, int(sub.n_edge))
+            if bad:
+                ck.fail(bad, {"table": t, "level": "isel", "order": idx % 3, "layout": (idx // 3) % 3, "supplied_edges": sup,
+                              "faces": sel, "lonlat": ll}, {"level": "isel", "supplied_edges": sup},
+                        detail=json.dumps({"sub_table": st, "edges": se, "face_edge": sfe, "npf": snpf}))
+            ck.extra["isel_grids_checked"] = ck.extra.get("isel_grids_checked", 0) + 1
     except Exception as ex:
         ck.fail("raises", {"table": t, "level": "grid"}, {"level": "grid"}, detail=repr(ex))
     return res
@@ -290,7 +318,7 @@ def main(ck):
 
 
 def replay(ck, rp):
-    c = {"kind": "replay", "table": rp["case"]["table"]}
+    c = {"kind": "replay", "table": rp["case"]["table"], "replay": rp["case"], "lonlat": rp["case"].get("lonlat")}
     ck.note_case(c["table"])
     ck.note_case("replay")
     run_case_impl(ck, c, rp["case"].get("order", 0))
